@@ -169,6 +169,8 @@ def add_late_settings(L):
   if r2.random() < 0.25 and not (cls == 'CDevice2' and not L.get('cbounds')):
     L['rebound'] = True
     L['warm'] = r2.random() < 0.6
+  if L.get('cbounds') and r2.random() < 0.2:
+    L['recb'] = True          # built without (CDevice2: with the default) cumulative bounds, used once, then `cbounds` assigned
 
 
 # ---- preference-function ASTs -----------------------------------------------------------------------
@@ -315,7 +317,8 @@ def widen(bounds):
 def warm_up(d):
   """Use the device once before it is re-bounded (any caches it keeps must not survive the assignment)."""
   z = np.zeros(len(d))
-  for f in (lambda: d.project(z.copy()), lambda: d.cost(z, 0), lambda: d.deriv(z, 0), lambda: [c['fun'](z) for c in d.constraints]):
+  for f in (lambda: d.project(z.copy()), lambda: d.cost(z, 0), lambda: d.deriv(z, 0), lambda: [c['fun'](z) for c in d.constraints],
+            lambda: d.hess(z, 0) if type(d).__name__ not in ('SDevice', 'TDevice') else None):
     try:
       f()
     except Exception:
@@ -323,6 +326,19 @@ def warm_up(d):
 
 
 def build(L):
+  if L.get('recb'):
+    L0 = dict(L)
+    L0['recb'] = False
+    L0['cbounds'], L0['cb_kind'] = None, None
+    try:
+      d = build(L0)
+    except ValueError:        # e.g. CDevice2 whose default pair is degenerate: build it directly
+      L1 = dict(L)
+      L1['recb'] = False
+      return build(L1)
+    warm_up(d)
+    d.cbounds = py_cbounds(L['cbounds'], L.get('cb_kind'))
+    return d
   if L.get('rebound'):
     L0 = dict(L)
     L0['bounds'] = widen(L['bounds'])
@@ -496,7 +512,7 @@ def leaf_from_json(J):
   if L.get('cbounds') is not None:
     L['cbounds'] = [(F(a), F(b), int(s), int(e)) for a, b, s, e in L['cbounds']]
   for k, v in list(L.items()):
-    if k in ('n', 'cls', 'id', 'cb_kind', 'bounds', 'cbounds', 'f', 'ucons', 'rate_clip', 'post_set', 'rebound', 'warm', 'omit'):
+    if k in ('n', 'cls', 'id', 'cb_kind', 'bounds', 'cbounds', 'f', 'ucons', 'rate_clip', 'post_set', 'rebound', 'warm', 'omit', 'recb'):
       continue
     if isinstance(v, int) and not isinstance(v, bool):
       L[k] = F(v)
